@@ -71,11 +71,12 @@ Section Top.
   Hypothesis HlowP : lowPrefix <= 0.
   Hypothesis Hds : 0 <= dictSize.
 
-  (* Full-block decoding of a strictly valid block by the safe loop; the history the block
-     may reference lies entirely in the prefix region [lowPrefix, 0) of the destination memory. *)
+  (* Full-block decoding of a strictly valid block by the safe loop; the history the block may
+     reference lies in the prefix region [lowPrefix, 0) of the destination memory, preceded (in
+     external-dictionary mode) by the dictionary: this is the memory view [vget]. *)
   Theorem dec_generic_valid_safe_loop (B hist D : list Z) cap m0 :
     strict_valid hist B = Some D -> bytes B -> src_at srcm 0 B ->
-    out_at (get m0) 0 (rev hist) -> Z.of_nat (length hist) <= - lowPrefix ->
+    out_at (vget lowPrefix dictm dictSize m0) 0 (rev hist) -> Z.of_nat (length hist) <= - lowPrefix + hroom dict dictSize ->
     Z.of_nat (length D) <= cap ->
     let '(r, m, k) := dec_generic false false dict srcm (Z.of_nat (length B)) cap lowPrefix rlow dictm dictSize m0 in
     r = Z.of_nat (length D) /\ forall i, 0 <= i < Z.of_nat (length D) -> get m i = nth (Z.to_nat i) D 0.
@@ -137,7 +138,7 @@ Section Top.
       cbn [ip op dm] in HR.
       destruct HR as (s' & Hrun & Hout); try lia.
       + exact Hs.
-      + intros j Hj. rewrite vget_hi by (rewrite rev_length in Hj; lia). apply Hh. exact Hj.
+      + exact Hh.
       + rewrite rev_length. lia.
       + rewrite Hrun. cbn [fst snd]. split; [lia|].
         intros i Hi. rewrite <- HD.
